@@ -44,6 +44,12 @@ CLAIMED = {
  'C20': ('property-based testing: generated line lists x initial-argument templates x replacement strings x option spellings vs a reference replace-mode model; bounded-exhaustive order matrix of -I/-n/-L',
          'Exploration: the complete order matrix of 2-3 of {-I, -n k, -L k} (k in 1..3, all four spellings of -I for pairs) plus thousands of random line lists (inner/trailing blanks, R inside lines, blank lines, no final newline) x initial arguments with 0-3 occurrences of R; recorded invocations equal the model exactly.',
          'Lines are free of quotes, backslashes and leading blanks (the stated domain). -I + -n 1 + -L together is not generated (the statement does not decide it).', 'DESIGN.md §3 C20'),
+ 'C08': ('property-based testing through the find binary and a recorder command: generated trees up to thousands of long names x RLIMIT_STACK settings x -exec/-execdir {} + x tests, -quit, failing invocations; reference walk as oracle, kernel as oracle for acceptance',
+         'Exploration: thousands of generated trees (0-3000 entries, thorough 30000; names to 250 bytes) under kernel budgets from 128 KiB so that up to dozens of batches are needed; the concatenation of delivered paths equals the reference visit order (each once), fixed arguments unchanged, -execdir batches single-directory with ./basename and the right cwd, pending batches run after -quit, exit status reflects failing / unstartable invocations, action always true.',
+         'Trusts the reference walker and the rec recorder; invocation boundaries are not asserted (only that every command line was accepted).', 'DESIGN.md §3 C08'),
+ 'C09': ('property-based testing: hostile file names x argument templates with 0-3 {} per argument x scripted child statuses x action position; recorder command log vs template substitution model, in process and through the binary',
+         'Exploration: tens of thousands of generated cases; every recorded argv equals the template with each {} replaced by the path (./basename and parent cwd for -execdir) byte for byte, one run per reached file in evaluation order (two chained actions interleave per file), truth == (status 0) seen through labelled -printf, find exits 0 whatever the children do.',
+         'Trusts the rec recorder and the reference walker; starting points spelled c/r or ./c/r.', 'DESIGN.md §3 C09'),
 }
 hooks_commits = subprocess.run(['git','-C','/repo','log','--format=%H %s'],capture_output=True,text=True).stdout.splitlines()
 hook_shas = [l.split()[0] for l in hooks_commits if 'verif hooks' in l]
